@@ -105,6 +105,31 @@ def resolve_name(expr, defs, depth=4):
     return expr
 
 
+PURE_BUILTINS = {'len', 'isinstance', 'bool', 'int', 'str', 'type', 'id', 'abs', 'min', 'max', 'tuple'}
+
+
+def expand_locals(expr, fnode, depth=3, params=()):
+    """a copy of `expr` in which every local name with exactly one (plain) definition in the function is replaced by the defining
+    expression, recursively: `head = self.queue.deque[0]; head.signal != X`  ->  `self.queue.deque[0].signal != X`.
+    Flow-insensitive: only names defined once, by a call-free expression, are expanded (the value cannot have changed in between
+    unless the attribute itself was written, which is the caller's concern as with any alias)."""
+    import copy
+    defs = local_defs(fnode)
+
+    class X(ast.NodeTransformer):
+        def __init__(self, level):
+            self.level = level
+
+        def visit_Name(self, n):
+            if isinstance(n.ctx, ast.Load) and n.id not in params and self.level < depth:
+                d = unique_def(defs, n.id)
+                if d is not None and isinstance(d, ast.AST) and not any(isinstance(x, ast.Call) and not (isinstance(x.func, ast.Name) and x.func.id in PURE_BUILTINS) for x in ast.walk(d)) \
+                        and not any(isinstance(x, ast.Name) and x.id == n.id for x in ast.walk(d)):
+                    return X(self.level + 1).visit(copy.deepcopy(d))
+            return n
+    return X(0).visit(copy.deepcopy(expr))
+
+
 def names_in(expr):
     return {n.id for n in ast.walk(expr) if isinstance(n, ast.Name)}
 
@@ -312,3 +337,34 @@ class FuncView:
 
     def site(self, node=None):
         return self._orig.site(node if node is not None and hasattr(node, 'lineno') else None)
+
+
+def namedtuple_fields(model, attr_or_name):
+    """field names of the namedtuple bound to `self.<attr>` / a module-level name anywhere in the package, or None"""
+    for f in model.all_funcs():
+        for n in walk_shallow(f.node):
+            if isinstance(n, ast.Assign) and isinstance(n.value, ast.Call) and norm(n.value.func).split('.')[-1] == 'namedtuple' and len(n.value.args) == 2 \
+                    and any((dotted(t) or '').split('.')[-1] == attr_or_name for t in n.targets):
+                a = n.value.args[1]
+                if isinstance(a, (ast.List, ast.Tuple)):
+                    return [e.value for e in a.elts if isinstance(e, ast.Constant)]
+                if isinstance(a, ast.Constant) and isinstance(a.value, str):
+                    return a.value.replace(',', ' ').split()
+    for (m, name), v in model.module_bindings.items():
+        if name == attr_or_name and isinstance(v, ast.Call) and norm(v.func).split('.')[-1] == 'namedtuple' and len(v.args) == 2:
+            a = v.args[1]
+            if isinstance(a, (ast.List, ast.Tuple)):
+                return [e.value for e in a.elts if isinstance(e, ast.Constant)]
+    return None
+
+
+def ctor_fields(call, fields):
+    """{field: argument expression} of a namedtuple construction (positional and keyword arguments)"""
+    out = {}
+    for i, a in enumerate(call.args):
+        if i < len(fields):
+            out[fields[i]] = a
+    for kw in call.keywords:
+        if kw.arg:
+            out[kw.arg] = kw.value
+    return out
